@@ -31,6 +31,7 @@ CONFIGS = {
         thorough=dict(MaxSid=14, Users='{"u1"}', EncIds='{"e1"}', MaxMpk=4, Pols="<- MCPolsSmall")),
     "Edits": dict(
         ops=["AddAttr", "DelAttr", "Rename", "Update", "KeyGen", "Refresh", "Encaps"],
+        ops_quick=["AddAttr", "DelAttr", "Rename", "Update", "KeyGen", "Encaps"],
         quick=dict(Script="<- Script_A", Dims='{"D2"}', Names='{"a", "b", "c"}', MaxAttrs=3, MaxUid=3, MaxSid=5,
                    Users='{"u1"}', EncIds='{"e1"}', MaxMpk=3, Pols="<- MCPolsSmall", IdFromCount="FALSE"),
         thorough=dict(Script="<- Script_HA", MaxAttrs=4, MaxUid=5, MaxSid=11, Users='{"u1"}', EncIds='{"e1"}',
